@@ -22,6 +22,20 @@ func ChooseGraph(n, maxParents int, choose func(int) int) *Graph {
 	return g
 }
 
+// SwapMergeParents returns the graph with the parent list of every merge commit reversed: the same
+// history, but first-parent chains and walk orders differ.
+func (g *Graph) SwapMergeParents() *Graph {
+	out := &Graph{Parents: make([][]int, len(g.Parents))}
+	for i, ps := range g.Parents {
+		q := append([]int{}, ps...)
+		for a, b := 0, len(q)-1; a < b; a, b = a+1, b-1 {
+			q[a], q[b] = q[b], q[a]
+		}
+		out.Parents[i] = q
+	}
+	return out
+}
+
 var parentSetCache = map[[2]int][][]int{}
 
 func parentSets(i, maxParents int) [][]int {
